@@ -36,7 +36,7 @@ FilePeriod(e) == IF \E p \in Periods : HasPrefix(e.obs.ok.units, PeriodStr(p) \o
 
 Names == {"Returned", "EmsForm", "SameInstant",
           "Saved", "UnitsEmsForm", "UnitsSameInstant", "TimeInstantsIdentical", "SameConvention", "PolygonsIdentical",
-          "ValuesIdentical", "NoNewFillAttrs"}
+          "ValuesIdentical", "NoNewFillAttrs", "SourcePolygons"}
 
 Holds(name, ww, e) ==
   CASE name = "Returned" -> e.a = "Format" => Ok(e)
@@ -59,6 +59,11 @@ Holds(name, ww, e) ==
          Is(e, "SaveOpen") =>
             /\ Len(e.obs.ok.polys) = FaceCount(ww)
             /\ \A n \in 1..FaceCount(ww) : Degenerate(RawPoly(ww, n - 1)) \/ SameRing(e.obs.ok.polys[n], PolyAt(ww, n - 1))
+    [] name = "SourcePolygons" ->
+         \* (the dataset that was saved had these cells to begin with: saved = source = the world's)
+         (e.a = "SaveOpen" /\ "srcpolys" \in DOMAIN e) =>
+            /\ "ok" \in DOMAIN e.srcpolys /\ Len(e.srcpolys.ok) = FaceCount(ww)
+            /\ \A n \in 1..FaceCount(ww) : Degenerate(RawPoly(ww, n - 1)) \/ SameRing(e.srcpolys.ok[n], PolyAt(ww, n - 1))
     [] name = "ValuesIdentical" ->
          Is(e, "SaveOpen") =>
             \A i \in 1..Len(ww.vars) :
